@@ -162,84 +162,7 @@ def run(chk, repo, tier):
     boundary_fold(chk, repo, 'C06-a')
     X.extent_identities(chk, repo, 'C06-b')
 
-    # merge helpers against the bounding box
-    for fn in ('_merge_shape', '_merge_offset', '_merge_slices'):
-        f, paths, _ = analyse(repo, f'field.{fn}', inline=[k.key for k in repo.all_functions() if k.module.name == 'extent'])
-        rets = returns(paths)
-        calls = [c for p in rets for c in p.calls('field.boundary')]
-        if not calls:
-            # the bounding box is handed in: find the parameter that _merge binds to boundary(fields)
-            from ..rules import quad
-            _, mp, _ = analyse(repo, 'field._merge')
-            par = None
-            for q in returns(mp):
-                bnds = [c for c in q.calls('field.boundary') if c.bound.get('fields') == S('fields')]
-                for c in q.calls(f'field.{fn}'):
-                    for nm, v in c.bound.items():
-                        if bnds and v == bnds[0].result:
-                            par = nm
-            if par is None:
-                chk.undecided('C06-b', 'N-identity', f.key, 'consistent with the bounding box of the fields',
-                              'neither calls boundary(fields) nor receives its result from _merge', f.loc())
-                continue
-            bq = quad('bounds')
-            f, paths, _ = analyse(repo, f'field.{fn}', config={par: bq},
-                                  inline=[k.key for k in repo.all_functions() if k.module.name == 'extent'])
-            rets = returns(paths)
-            b = list(bq.items)
-        else:
-            b = [nf.index(calls[0].result, C(i)) for i in range(4)]
-        # the path for fields that are not all one-element fields at the origin (that one returns () / [Ellipsis])
-        def special(p_):
-            r_ = p_.ret
-            return (isinstance(r_, Tup) and len(r_) == 0) or (isinstance(r_, Tup) and len(r_) == 1 and r_.items[0] == nf.ELLIPSIS) \
-                or _repeated_list(r_) is not None
-        general = [p_ for p_ in rets if not special(p_)] or rets[-1:]
-        p = general[-1]
-        for sp in [p_ for p_ in rets if special(p_)]:
-            origin_shortcut_rule(chk, f, sp, b)
-        if fn == '_merge_shape':
-            want = Tup([b[1] - b[0] + 1, b[3] - b[2] + 1])
-            chk.ob('C06-b', 'N-identity', f.key, 'shape of the bounding box', p.ret == want,
-                   f'returns {fmt(p.ret)}; expected {fmt(want)}', f.loc(p.node))
-        elif fn == '_merge_offset':
-            want = Tup([b[0] + HALF(b[1] - b[0] + 1), b[2] + HALF(b[3] - b[2] + 1)])
-            chk.ob('C06-b', 'N-identity', f.key, '= array_center(boundary)', p.ret == want,
-                   f'returns {fmt(p.ret)}; expected {fmt(want)}', f.loc(p.node))
-        else:
-            # the appended (row, col) slices in the loop
-            ok, det, n = True, '', 0
-            cands = [e.data['args'][0] for e in p.events
-                     if e.kind == 'write' and e.data.get('how') == 'method:append' and e.in_loop]
-            ra = p.ret.single_atom() if isinstance(p.ret, Poly) else None
-            def over_fields(seq):
-                sa = seq.single_atom() if isinstance(seq, Poly) else None
-                return seq == S('fields') or (sa is not None and is_app(sa, ('listcomp', 'genexp')) and len(sa[2]) == 2
-                                              and over_fields(sa[2][1]))
-            if ra is not None and is_app(ra, ('listcomp', 'genexp')) and len(ra[2]) == 2 and over_fields(ra[2][1]):
-                cands.append(ra[2][0].single_atom()[1] if isinstance(ra[2][0], Poly) and ra[2][0].single_atom() is not None
-                             and ra[2][0].single_atom()[0] == 'val' else ra[2][0])
-            for v in cands:
-                if True:
-                    if isinstance(v, Tup) and len(v) == 2 and all(isinstance(s, Slice) for s in v.items):
-                        n += 1
-                        ext = None
-                        for a in nf.value_atoms(v):
-                            if a[0] == 'attr' and a[2] == 'extent':
-                                ext = Poly.atom(a)
-                        if ext is None:
-                            ok, det = False, f'slice {fmt(v)} not derived from field.extent'
-                            continue
-                        fe = [nf.index(ext, C(i)) for i in range(4)]
-                        for k, s in enumerate(v.items):
-                            lo, hi = fe[2 * k], fe[2 * k + 1]
-                            good = s.lo == lo - b[2 * k] and s.hi - s.lo == hi - lo + 1
-                            if not good:
-                                ok, det = False, f'axis {k}: slice {fmt(s)}; expected {fmt(lo - b[2 * k])}:{fmt(hi - b[2 * k] + 1)}'
-            chk.ob('C06-b', 'N-identity', f.key, 'slice = field extent relative to the bounding box',
-                   (ok and n > 0) if (n or not ok) else None,
-                   det or ('start = fmin - min, length = fmax - fmin + 1 on both axes' if n else
-                           f'undecided: no per-field (row, col) slice pair recognised in {fmt(p.ret)[:100]}'), f.loc())
+    merge_helper_rules(chk, repo)
 
     # ---------------------------------------------------------------- C06-c
     insert_rules(chk, repo)
@@ -466,6 +389,89 @@ def origin_shortcut_rule(chk, f, sp, b):
     except linear.NotLinear as ex:
         det += f' ({ex})'
     chk.ob('C06-b', 'N-identity', f.key, 'scalar shortcut only for the bounding box (0, 0, 0, 0)', ok, det, f.loc(sp.node))
+
+
+def merge_helper_rules(chk, repo):
+    """_merge_shape / _merge_offset / _merge_slices against the bounding box of the fields (C06-b; routed into C03 and C07)"""
+    # merge helpers against the bounding box
+    for fn in ('_merge_shape', '_merge_offset', '_merge_slices'):
+        f, paths, _ = analyse(repo, f'field.{fn}', inline=[k.key for k in repo.all_functions() if k.module.name == 'extent'])
+        rets = returns(paths)
+        calls = [c for p in rets for c in p.calls('field.boundary')]
+        if not calls:
+            # the bounding box is handed in: find the parameter that _merge binds to boundary(fields)
+            from ..rules import quad
+            _, mp, _ = analyse(repo, 'field._merge')
+            par = None
+            for q in returns(mp):
+                bnds = [c for c in q.calls('field.boundary') if c.bound.get('fields') == S('fields')]
+                for c in q.calls(f'field.{fn}'):
+                    for nm, v in c.bound.items():
+                        if bnds and v == bnds[0].result:
+                            par = nm
+            if par is None:
+                chk.undecided('C06-b', 'N-identity', f.key, 'consistent with the bounding box of the fields',
+                              'neither calls boundary(fields) nor receives its result from _merge', f.loc())
+                continue
+            bq = quad('bounds')
+            f, paths, _ = analyse(repo, f'field.{fn}', config={par: bq},
+                                  inline=[k.key for k in repo.all_functions() if k.module.name == 'extent'])
+            rets = returns(paths)
+            b = list(bq.items)
+        else:
+            b = [nf.index(calls[0].result, C(i)) for i in range(4)]
+        # the path for fields that are not all one-element fields at the origin (that one returns () / [Ellipsis])
+        def special(p_):
+            r_ = p_.ret
+            return (isinstance(r_, Tup) and len(r_) == 0) or (isinstance(r_, Tup) and len(r_) == 1 and r_.items[0] == nf.ELLIPSIS) \
+                or _repeated_list(r_) is not None
+        general = [p_ for p_ in rets if not special(p_)] or rets[-1:]
+        p = general[-1]
+        for sp in [p_ for p_ in rets if special(p_)]:
+            origin_shortcut_rule(chk, f, sp, b)
+        if fn == '_merge_shape':
+            want = Tup([b[1] - b[0] + 1, b[3] - b[2] + 1])
+            chk.ob('C06-b', 'N-identity', f.key, 'shape of the bounding box', p.ret == want,
+                   f'returns {fmt(p.ret)}; expected {fmt(want)}', f.loc(p.node))
+        elif fn == '_merge_offset':
+            want = Tup([b[0] + HALF(b[1] - b[0] + 1), b[2] + HALF(b[3] - b[2] + 1)])
+            chk.ob('C06-b', 'N-identity', f.key, '= array_center(boundary)', p.ret == want,
+                   f'returns {fmt(p.ret)}; expected {fmt(want)}', f.loc(p.node))
+        else:
+            # the appended (row, col) slices in the loop
+            ok, det, n = True, '', 0
+            cands = [e.data['args'][0] for e in p.events
+                     if e.kind == 'write' and e.data.get('how') == 'method:append' and e.in_loop]
+            ra = p.ret.single_atom() if isinstance(p.ret, Poly) else None
+            def over_fields(seq):
+                sa = seq.single_atom() if isinstance(seq, Poly) else None
+                return seq == S('fields') or (sa is not None and is_app(sa, ('listcomp', 'genexp')) and len(sa[2]) == 2
+                                              and over_fields(sa[2][1]))
+            if ra is not None and is_app(ra, ('listcomp', 'genexp')) and len(ra[2]) == 2 and over_fields(ra[2][1]):
+                cands.append(ra[2][0].single_atom()[1] if isinstance(ra[2][0], Poly) and ra[2][0].single_atom() is not None
+                             and ra[2][0].single_atom()[0] == 'val' else ra[2][0])
+            for v in cands:
+                if True:
+                    if isinstance(v, Tup) and len(v) == 2 and all(isinstance(s, Slice) for s in v.items):
+                        n += 1
+                        ext = None
+                        for a in nf.value_atoms(v):
+                            if a[0] == 'attr' and a[2] == 'extent':
+                                ext = Poly.atom(a)
+                        if ext is None:
+                            ok, det = False, f'slice {fmt(v)} not derived from field.extent'
+                            continue
+                        fe = [nf.index(ext, C(i)) for i in range(4)]
+                        for k, s in enumerate(v.items):
+                            lo, hi = fe[2 * k], fe[2 * k + 1]
+                            good = s.lo == lo - b[2 * k] and s.hi - s.lo == hi - lo + 1
+                            if not good:
+                                ok, det = False, f'axis {k}: slice {fmt(s)}; expected {fmt(lo - b[2 * k])}:{fmt(hi - b[2 * k] + 1)}'
+            chk.ob('C06-b', 'N-identity', f.key, 'slice = field extent relative to the bounding box',
+                   (ok and n > 0) if (n or not ok) else None,
+                   det or ('start = fmin - min, length = fmax - fmin + 1 on both axes' if n else
+                           f'undecided: no per-field (row, col) slice pair recognised in {fmt(p.ret)[:100]}'), f.loc())
+
 
 
 def _repeated_list(v):
